@@ -40,6 +40,7 @@ CORPUS_PROGRAMS = [
     ("derived_redeclares_member.cpp", "struct Base {\n    int count;\n    Base();\n    void bump();\n};\nstruct Derived : Base {\n    int count;\n    Derived();\n    int get() const;\n    void reset();\n};\n"
                                       "Base::Base() : count(0) {}\nvoid Base::bump() { count++; }\nDerived::Derived() : count(7) {}\nint Derived::get() const { return count + this->count + Base::count; }\nvoid Derived::reset() { count = 0; }\n"),
     ("member_vs_global.cpp", "int n = 7;\nstruct B {\n  int n;\n  int inl() const { return n; }\n  int get();\n};\nint B::get() { return n; }\n"),
+    ("paren_product_statement.cpp", "struct D3 {\n  int n; int x;\n  void set(int n);\n};\nvoid D3::set(int n) {\n  (void)(x * n);\n  (void)n;\n}\n"),
     ("overload.cpp", "int o(int x) { return x; }\nint o(double x) { return 2; }\nint o(int x, int y = 0);\nint h() { return o(1) + o(1.5); }\n"),
 ]
 
@@ -60,6 +61,20 @@ def model_lines_raw(model, tag, cases):
         f = vlib.dec_line(l)
         res.append(tuple(None if x == b"-" else int(x) for x in f))
     return res
+
+
+def funcptr_lookalike(src_lines, l, c, name, vdecl, decls):
+    """classification of one known defect class: the use is the `n` of a statement shaped `) ( a * n ) ;` (e.g. `(void)(x * n);`),
+    which setVarIdPass1 takes for a function-pointer declaration and leaves without varid; cppcheck then linked a class member
+    (FieldDecl) of that name although a parameter / local hides it"""
+    import re
+    if not (0 < l <= len(src_lines)) or not isinstance(vdecl, tuple):
+        return False
+    line = src_lines[l - 1]
+    pre, post = line[:c - 1], line[c - 1 + len(name):]
+    if not (re.search(r"\)\s*\(\s*[A-Za-z_]\w*\s*\*\s*$", pre) and re.match(r"\s*\)\s*;", post)):
+        return False
+    return any((v["line"], v["col"]) == tuple(vdecl) and v["kind"] == "FieldDecl" for v in decls.values())
 
 
 def corpus_sources(quick):
@@ -124,8 +139,14 @@ def analyse_program(run, model, path, cpp, use_clang, stats):
         for uses in dl[:1]:
             n, bad = NC.compare_with_clang(uses, decls, cuses)
             a, b = NC.varid_partition_check(uses)
+            try:
+                src_lines = open(path, encoding="latin-1").read().split("\n")
+            except OSError:
+                src_lines = []
             for (l, c, s_, vdecl, ent, cls) in bad:
                 run.count("clang oracle", None, bucket="differs")
+                if not cls and funcptr_lookalike(src_lines, l, c, s_, vdecl, decls):
+                    cls = "funcptr-lookalike"
                 problems.append(("undo-log" if (l, c) in redecl_sites else (cls or "resolution"),
                                  {"file": path, "site": [l, c], "name": s_, "cppcheck_declaration": list(vdecl) if isinstance(vdecl, tuple) else vdecl,
                                   "clang_declarations": ent}))
@@ -339,6 +360,10 @@ def check(run, replay):
             key = "member-function-use-binds-earlier-global"
             what = ("REGRESSION of /repo dc43c26: inside a member function (out-of-class definition, or a derived class using an inherited member) an unqualified use of a data member "
                     "whose name was declared earlier at namespace scope is linked to that global: '%s' at %s -> cppcheck %s, clang %s" % (dd["name"], dd["site"], dd["cppcheck_declaration"], dd["clang_declarations"]))
+        elif kind == "funcptr-lookalike":
+            key = "paren-product-statement-taken-for-declaration"
+            what = ("in a member function the statement `(T)(a * n);` is taken for a function-pointer declaration by setVarIdPass1 (n gets no varid) and setVarIdPass2 then "
+                    "links n to a data member of that name although a parameter/local hides it: '%s' at %s -> cppcheck %s, clang %s" % (dd["name"], dd["site"], dd["cppcheck_declaration"], dd["clang_declarations"]))
         elif kind == "resolution":
             key = "resolution:" + hashlib.sha1(small.encode()).hexdigest()[:10]
             what = "use of '%s' at %s: cppcheck links the declaration at %s, clang binds %s" % (dd["name"], dd["site"], dd["cppcheck_declaration"], dd["clang_declarations"])
